@@ -65,7 +65,7 @@ def bytes_to_blocks(
     found_names = ToArgs(names)
     # We count all the arg names as "found", since we will always preserve them in the
     # args
-    found_varnames = ToArgs(varnames, {i: i for i in range(len(args.parameters))})
+    found_varnames = ToArgs(varnames, {i: i for i in range(len(args))})
     found_cellvars = ToArgs(cellvars)
     found_constants = ToArgs(constants, _hash_fn=constant_key)
 
